@@ -294,6 +294,9 @@ pub struct Quirks {
     pub crypt_parms_array_ignored: bool,
     /// StmF / StrF spelled as the empty name (what lopdf's kept state writes for an absent entry) mean /Identity
     pub empty_filter_name_is_identity: bool,
+    /// the Contents value of a signature dictionary is processed like any other string (ISO 32000-2 7.6.2
+    /// exempts it: the signature is computed over the bytes of the file as stored)
+    pub sig_contents_processed: bool,
 }
 
 #[derive(Clone, Debug)]
@@ -837,7 +840,13 @@ impl Ctx<'_> {
                 }
             }
             Object::Dictionary(d) => {
+                // §7.6.2 (ISO 32000-2): the hexadecimal string that is the Contents value of a signature
+                // dictionary is not encrypted
+                let exempt = !self.q.sig_contents_processed && is_signature_dictionary(d);
                 for (k, x) in d.iter_mut() {
+                    if exempt && k.as_slice() == b"Contents" {
+                        continue;
+                    }
                     self.walk(id, x, &format!("{}/{}", path, String::from_utf8_lossy(k)), in_stream_dict);
                 }
             }
@@ -899,6 +908,23 @@ impl Ctx<'_> {
         }
         self.enc.resolve(self.enc.stmf.as_deref(), &self.q)
     }
+}
+
+/// A signature dictionary in the narrow sense every reading of ISO 32000-2 7.6.2 / 12.8.1 agrees on:
+/// /Type /Sig or /DocTimeStamp, a /ByteRange array, and a /Contents value that is a hexadecimal string
+/// ("when ByteRange is present, the value shall be a hexadecimal string"). Dictionaries that merely have a
+/// key named Contents (annotations, pages) are ordinary dictionaries: every string in them is processed.
+pub fn is_signature_dictionary(d: &Dictionary) -> bool {
+    matches!(d.get(b"Type"), Ok(Object::Name(n)) if n == b"Sig" || n == b"DocTimeStamp")
+        && matches!(d.get(b"ByteRange"), Ok(Object::Array(_)))
+        && matches!(d.get(b"Contents"), Ok(Object::String(_, lopdf::StringFormat::Hexadecimal)))
+}
+
+/// A dictionary some implementation might take for a signature dictionary: /Type /Sig or /DocTimeStamp, or a
+/// /ByteRange entry (Type is optional in a signature dictionary). Used by C05 only, to decide for which
+/// Contents strings *both* behaviours (processed / left alone) are accepted.
+pub fn maybe_signature_dictionary(d: &Dictionary) -> bool {
+    matches!(d.get(b"Type"), Ok(Object::Name(n)) if n == b"Sig" || n == b"DocTimeStamp") || d.has(b"ByteRange")
 }
 
 pub struct ApplyReport {
@@ -1261,6 +1287,9 @@ pub mod menu {
         /// the identity filter is registered under the custom name /NoCrypt (C06 only)
         pub custom_identity: bool,
         pub em: bool,
+        /// CF additionally holds crypt filters that neither StmF nor StrF names (one per CFM of the version,
+        /// see `extra_entries`); only a stream's own Crypt filter can select them
+        pub extra_cf: bool,
     }
 
     pub const FILE_KEY: [u8; 32] = [
@@ -1320,7 +1349,8 @@ pub mod menu {
                 Ver::V5 => "V5".to_string(),
             };
             json!({"ver": v, "stm": self.stm.name(), "str": self.strf.name(), "identity_in_cf": self.identity_in_cf,
-                   "custom_identity": self.custom_identity, "encrypt_metadata": self.em})
+                   "custom_identity": self.custom_identity, "encrypt_metadata": self.em, "extra_cf": self.extra_cf,
+                   "cf": self.cf_entries().iter().map(|(n, f)| json!([String::from_utf8_lossy(n), f.name()])).collect::<Vec<_>>()})
         }
         pub fn from_json(v: &Value) -> Config {
             let s = v["ver"].as_str().unwrap_or("V1");
@@ -1338,7 +1368,36 @@ pub mod menu {
                 identity_in_cf: v["identity_in_cf"].as_bool().unwrap_or(false),
                 custom_identity: v["custom_identity"].as_bool().unwrap_or(false),
                 em: v["encrypt_metadata"].as_bool().unwrap_or(true),
+                extra_cf: v["extra_cf"].as_bool().unwrap_or(false),
             }
+        }
+        /// Crypt filters CF holds beyond those StmF / StrF name: one per CFM the version allows, under names that
+        /// sort before, between and after the names of the default filters (CFRC4, Identity, NoCrypt, StdCF).
+        pub fn extra_entries(&self) -> Vec<(Vec<u8>, F)> {
+            if !self.extra_cf || !self.has_filters() {
+                return vec![];
+            }
+            match self.ver {
+                Ver::V4 => vec![(b"AltV2".to_vec(), F::Rc4), (b"MidNone".to_vec(), F::Identity), (b"XAES".to_vec(), F::Aes128)],
+                _ => vec![(b"AltAES".to_vec(), F::Aes256), (b"XNone".to_vec(), F::Identity)],
+            }
+        }
+        /// Every entry of the configuration's CF dictionary: the filters StmF / StrF name (the predefined
+        /// /Identity only when it is registered explicitly), then the extra ones.
+        pub fn cf_entries(&self) -> Vec<(Vec<u8>, F)> {
+            let mut out: Vec<(Vec<u8>, F)> = vec![];
+            if !self.has_filters() {
+                return out;
+            }
+            for f in [self.stm, self.strf] {
+                let name = self.filter_name(f);
+                if out.iter().any(|(n, _)| *n == name) || (f == F::Identity && !self.identity_in_cf && !self.custom_identity) {
+                    continue;
+                }
+                out.push((name, f));
+            }
+            out.extend(self.extra_entries());
+            out
         }
         /// method a crypt filter *name* stands for in this configuration (per the standard)
         pub fn method_of_name(&self, name: Option<&[u8]>) -> F {
@@ -1353,7 +1412,7 @@ pub mod menu {
                     } else if n == self.filter_name(self.strf).as_slice() {
                         self.strf
                     } else {
-                        F::Identity
+                        self.extra_entries().into_iter().find(|(x, _)| x.as_slice() == n).map(|x| x.1).unwrap_or(F::Identity)
                     }
                 }
             }
@@ -1363,34 +1422,63 @@ pub mod menu {
     /// The configuration space of DESIGN C05: V1; V2 x 12 key lengths; V4 x {RC4, AES-128, Identity}^2 x
     /// EncryptMetadata (x the two ways of naming Identity); R5; V5 x {AES-256, Identity}^2.
     pub fn configs() -> Vec<Config> {
-        let mut out = vec![Config { ver: Ver::V1, stm: F::Rc4, strf: F::Rc4, identity_in_cf: false, custom_identity: false, em: true }];
+        let mut out = vec![Config { ver: Ver::V1, stm: F::Rc4, strf: F::Rc4, identity_in_cf: false, custom_identity: false, em: true, extra_cf: false }];
         for bits in (40..=128).step_by(8) {
-            out.push(Config { ver: Ver::V2(bits), stm: F::Rc4, strf: F::Rc4, identity_in_cf: false, custom_identity: false, em: true });
+            out.push(Config { ver: Ver::V2(bits), stm: F::Rc4, strf: F::Rc4, identity_in_cf: false, custom_identity: false, em: true, extra_cf: false });
         }
         for em in [true, false] {
             for stm in [F::Rc4, F::Aes128, F::Identity] {
                 for strf in [F::Rc4, F::Aes128, F::Identity] {
                     let id = stm == F::Identity || strf == F::Identity;
                     for in_cf in if id { vec![false, true] } else { vec![false] } {
-                        out.push(Config { ver: Ver::V4, stm, strf, identity_in_cf: in_cf, custom_identity: false, em });
+                        out.push(Config { ver: Ver::V4, stm, strf, identity_in_cf: in_cf, custom_identity: false, em, extra_cf: false });
                     }
                 }
             }
         }
         for em in [true, false] {
-            out.push(Config { ver: Ver::R5, stm: F::Aes256, strf: F::Aes256, identity_in_cf: false, custom_identity: false, em });
+            out.push(Config { ver: Ver::R5, stm: F::Aes256, strf: F::Aes256, identity_in_cf: false, custom_identity: false, em, extra_cf: false });
         }
         for em in [true, false] {
             for stm in [F::Aes256, F::Identity] {
                 for strf in [F::Aes256, F::Identity] {
                     let id = stm == F::Identity || strf == F::Identity;
                     for in_cf in if id { vec![false, true] } else { vec![false] } {
-                        out.push(Config { ver: Ver::V5, stm, strf, identity_in_cf: in_cf, custom_identity: false, em });
+                        out.push(Config { ver: Ver::V5, stm, strf, identity_in_cf: in_cf, custom_identity: false, em, extra_cf: false });
                     }
                 }
             }
         }
         out
+    }
+
+    /// Configurations whose CF dictionary holds MORE crypt filters than StmF / StrF name (`extra_cf`): V4 x
+    /// {RC4, AES-128, Identity}^2 for (StmF, StrF), revision 5 and V5 x {AES-256, Identity}^2; EncryptMetadata true,
+    /// plus EncryptMetadata false for the all-encrypting and the all-Identity assignment. With StmF = StrF =
+    /// /Identity the registered filters are reachable through a stream's own Crypt filter only.
+    pub fn configs_extra_cf() -> Vec<Config> {
+        let mut out = vec![];
+        for (ver, menu) in [(Ver::V4, vec![F::Rc4, F::Aes128, F::Identity]), (Ver::R5, vec![F::Aes256, F::Identity]), (Ver::V5, vec![F::Aes256, F::Identity])] {
+            for &stm in &menu {
+                for &strf in &menu {
+                    out.push(Config { ver, stm, strf, identity_in_cf: false, custom_identity: false, em: true, extra_cf: true });
+                }
+            }
+            for f in [*menu.iter().find(|f| **f != F::Rc4 && **f != F::Identity).unwrap(), F::Identity] {
+                out.push(Config { ver, stm: f, strf: f, identity_in_cf: false, custom_identity: false, em: false, extra_cf: true });
+            }
+        }
+        out
+    }
+
+    /// CFM name the standard defines for a method
+    pub fn nominal_cfm(f: F) -> &'static [u8] {
+        match f {
+            F::Rc4 => b"V2",
+            F::Aes128 => b"AESV2",
+            F::Aes256 => b"AESV3",
+            F::Identity => b"None",
+        }
     }
 
     /// Build lopdf's EncryptionState for a configuration through the public API only.
@@ -1415,6 +1503,15 @@ pub mod menu {
                     cfs.insert(name, Arc::new(Aes256CryptFilter));
                 }
             }
+        }
+        for (name, f) in cfg.extra_entries() {
+            let filter: Arc<dyn CryptFilter> = match f {
+                F::Identity => Arc::new(IdentityCryptFilter),
+                F::Rc4 => Arc::new(Rc4CryptFilter),
+                F::Aes128 => Arc::new(Aes128CryptFilter),
+                F::Aes256 => Arc::new(Aes256CryptFilter),
+            };
+            cfs.insert(name, filter);
         }
         let version = match cfg.ver {
             Ver::V1 => EncryptionVersion::V1 { document: doc, owner_password: owner, user_password: user, permissions },
@@ -1505,6 +1602,22 @@ pub mod menu {
         CryptArray,
         /// streams with a Crypt filter and no /DecodeParms at all (every parameter at its default)
         CryptBare,
+        /// per-stream Crypt overrides naming EVERY entry of the configuration's CF dictionary (also the ones
+        /// neither StmF nor StrF names), /Identity, and no name, in the dictionary and the array form of /DecodeParms
+        CryptNamed,
+        /// per-stream Crypt overrides whose Name is not usable: a filter that is not defined, the empty name, a
+        /// differently-cased name, a string instead of a name (outside the standard: only lopdf against itself)
+        CryptUndefined,
+        /// strings (literal and hexadecimal format, 16 bytes or more) under key names an implementation might be
+        /// tempted to special-case (Contents, ID, O, U, OE, UE, Perms, Cert, Filter, Encrypt, ...) in ordinary
+        /// dictionaries: top-level, nested, in arrays, in stream dictionaries; dictionaries typed /XRef, /ObjStm
+        /// and one that looks like an encryption dictionary, nested in an ordinary object
+        KeyNames,
+        /// real signature dictionaries (/Type /Sig resp. /DocTimeStamp, /ByteRange, hexadecimal /Contents)
+        SigDict,
+        /// dictionaries that are signature dictionaries under some readings only (no /Type, no /ByteRange,
+        /// literal-format Contents): only lopdf against itself, both treatments of Contents accepted
+        SigAmbiguous,
     }
 
     impl DocKind {
@@ -1522,6 +1635,11 @@ pub mod menu {
                 DocKind::DeepMemory => "nesting_ladders_beyond_reader_limit",
                 DocKind::CryptArray => "crypt_override_decodeparms_array",
                 DocKind::CryptBare => "crypt_filter_without_decodeparms",
+                DocKind::CryptNamed => "crypt_override_naming_every_cf_entry",
+                DocKind::CryptUndefined => "crypt_override_with_unusable_name",
+                DocKind::KeyNames => "strings_under_special_looking_keys",
+                DocKind::SigDict => "signature_dictionaries",
+                DocKind::SigAmbiguous => "signature_like_dictionaries",
             }
         }
         pub fn from_name(s: &str) -> DocKind {
@@ -1537,6 +1655,11 @@ pub mod menu {
                 "nesting_ladders_beyond_reader_limit" => DocKind::DeepMemory,
                 "crypt_override_decodeparms_array" => DocKind::CryptArray,
                 "crypt_filter_without_decodeparms" => DocKind::CryptBare,
+                "crypt_override_naming_every_cf_entry" => DocKind::CryptNamed,
+                "crypt_override_with_unusable_name" => DocKind::CryptUndefined,
+                "strings_under_special_looking_keys" => DocKind::KeyNames,
+                "signature_dictionaries" => DocKind::SigDict,
+                "signature_like_dictionaries" => DocKind::SigAmbiguous,
                 _ => DocKind::Page,
             }
         }
@@ -1554,7 +1677,7 @@ pub mod menu {
         ];
         /// kinds that need crypt filters (V >= 4)
         pub fn needs_filters(self) -> bool {
-            matches!(self, DocKind::Crypt | DocKind::CryptArray | DocKind::CryptBare)
+            matches!(self, DocKind::Crypt | DocKind::CryptArray | DocKind::CryptBare | DocKind::CryptNamed | DocKind::CryptUndefined)
         }
         pub fn is_deep(self) -> bool {
             matches!(self, DocKind::DeepLoadable | DocKind::DeepMemory)
@@ -1914,6 +2037,42 @@ pub mod menu {
         d
     }
 
+    /// Key names an implementation of 7.6.2 might be tempted to treat specially: the exemptions of the standard
+    /// concern the trailer's ID, the strings of THE encryption dictionary, cross-reference streams and the Contents
+    /// of a signature dictionary - never a key name as such.
+    pub const KEY_MENU: [&str; 34] = [
+        "Contents", "ID", "O", "U", "OE", "UE", "Perms", "Cert", "Filter", "SubFilter", "Reason", "M", "Name", "Location", "V", "T", "TU", "JS", "URI", "F",
+        "UF", "Desc", "CheckSum", "Recipients", "Encrypt", "CF", "StmF", "StrF", "Lang", "Title", "Length", "DecodeParms", "Type", "Subtype",
+    ];
+
+    /// A dictionary with a string (16..33 bytes) under every key of `KEY_MENU`. `mode`: 0 literal format, 1
+    /// hexadecimal format, 2 / 3 alternating (starting with literal / hexadecimal). ID and Recipients hold an array of
+    /// two strings, Encrypt and CF a dictionary of strings. `in_stream`: leave out the keys that mean something in a
+    /// stream dictionary.
+    pub fn key_dict(mode: u8, salt: u32, in_stream: bool) -> Dictionary {
+        let mut d = Dictionary::new();
+        for (i, k) in KEY_MENU.iter().enumerate() {
+            if in_stream && matches!(*k, "Filter" | "Length" | "DecodeParms" | "Type" | "Subtype" | "F") {
+                continue;
+            }
+            let hexf = match mode {
+                0 => false,
+                1 => true,
+                2 => i % 2 == 1,
+                _ => i % 2 == 0,
+            };
+            let len = 16 + (i * 5 + salt as usize) % 18;
+            let st = s(len, salt + i as u32, hexf);
+            let v = match *k {
+                "ID" | "Recipients" => Object::Array(vec![st, s(16, salt + 50 + i as u32, !hexf)]),
+                "Encrypt" | "CF" => Object::Dictionary(dict(vec![("O", st), ("U", s(32, salt + 60 + i as u32, !hexf)), ("Filter", Object::Name(b"Standard".to_vec()))])),
+                _ => st,
+            };
+            d.set(*k, v);
+        }
+        d
+    }
+
     /// Document menu (DESIGN C05): every path of encrypt_object / decrypt_object.
     /// `cfg` only matters for `Crypt` (the override names must exist in the configuration).
     pub fn build_doc(kind: DocKind, cfg: &Config, id0: &[u8], big_ids: bool) -> Document {
@@ -2057,6 +2216,156 @@ pub mod menu {
                 objs.push(((5, 0), Object::Stream(Stream::new(dict(vec![("Filter", crypt), ("DecodeParms", Object::Null)]), pattern(11, 524)))));
                 objs.push(((6, 0), Object::Stream(Stream::new(Dictionary::new(), pattern(40, 525)))));
             }
+            DocKind::CryptNamed | DocKind::CryptUndefined => {
+                objs.push(((1, 0), Object::Dictionary(dict(vec![("Type", Object::Name(b"Catalog".to_vec())), ("S", s(20, 530, false))]))));
+                // what the Name entry of the Crypt filter's parameters is
+                let mut names: Vec<Option<Object>> = vec![];
+                if kind == DocKind::CryptNamed {
+                    for (n, _) in cfg.cf_entries() {
+                        names.push(Some(Object::Name(n)));
+                    }
+                    names.push(Some(Object::Name(b"Identity".to_vec())));
+                    names.push(None);
+                } else {
+                    let defined = cfg.cf_entries().first().map(|x| x.0.clone()).unwrap_or_else(|| b"StdCF".to_vec());
+                    names.push(Some(Object::Name(b"Undefined".to_vec())));
+                    names.push(Some(Object::Name(defined.to_ascii_lowercase())));
+                    names.push(Some(Object::String(defined.clone(), StringFormat::Literal)));
+                    names.push(Some(Object::Array(vec![Object::Name(defined)])));
+                    names.push(Some(Object::Null));
+                }
+                let parms = |name: &Option<Object>| {
+                    let mut p = dict(vec![("Type", Object::Name(b"CryptFilterDecodeParms".to_vec()))]);
+                    if let Some(n) = name {
+                        p.set("Name", n.clone());
+                    }
+                    Object::Dictionary(p)
+                };
+                let names_arr = |v: &[&str]| Object::Array(v.iter().map(|n| Object::Name(n.as_bytes().to_vec())).collect());
+                let mk = |filters: Object, p: Object, content: Vec<u8>| Object::Stream(Stream::new(dict(vec![("Filter", filters), ("DecodeParms", p)]), content));
+                let mut next = 2u32;
+                for (i, name) in names.iter().enumerate() {
+                    let salt = 540 + 10 * i as u32;
+                    // the dictionary form, the one-element array form, and the array form next to a second filter
+                    objs.push(((next, 0), mk(Object::Name(b"Crypt".to_vec()), parms(name), pattern(40, salt))));
+                    objs.push(((next + 1, 0), mk(names_arr(&["Crypt"]), Object::Array(vec![parms(name)]), pattern(33, salt + 1))));
+                    objs.push((
+                        (next + 2, 0),
+                        mk(names_arr(&["ASCIIHexDecode", "Crypt"]), Object::Array(vec![Object::Null, parms(name)]), crate::objjson::hex(&pattern(20, salt + 2)).into_bytes()),
+                    ));
+                    next += 3;
+                }
+                // a stream without a Crypt filter (StmF applies), and strings in the dictionaries of streams with an
+                // override (first name, last name, /Identity): the override concerns the stream data only, the strings
+                // of the stream dictionary are strings of the document (StrF)
+                objs.push(((next, 0), Object::Stream(Stream::new(Dictionary::new(), pattern(40, 700)))));
+                let picks = [names[0].clone(), names[names.len().saturating_sub(3)].clone(), Some(Object::Name(b"Identity".to_vec()))];
+                for (j, name) in picks.iter().enumerate() {
+                    let salt = 701 + 10 * j as u32;
+                    let mut d = dict(vec![("Filter", Object::Name(b"Crypt".to_vec())), ("DecodeParms", parms(name)), ("Note", s(24, salt, true))]);
+                    d.set("After", s(17, salt + 1, false));
+                    d.set("Arr", Object::Array(vec![s(16, salt + 2, true)]));
+                    objs.push(((next + 1 + j as u32, 0), Object::Stream(Stream::new(d, pattern(48, salt + 3)))));
+                }
+            }
+            DocKind::KeyNames => {
+                objs.push(((1, 0), Object::Dictionary(dict(vec![("Type", Object::Name(b"Catalog".to_vec()))]))));
+                objs.push(((2, 0), Object::Dictionary(key_dict(0, 800, false))));
+                objs.push(((3, 0), Object::Dictionary(key_dict(1, 900, false))));
+                let mut annot = key_dict(2, 1000, false);
+                annot.set("Type", Object::Name(b"Annot".to_vec()));
+                annot.set("Subtype", Object::Name(b"Widget".to_vec()));
+                objs.push((
+                    (4, 0),
+                    Object::Dictionary(dict(vec![
+                        ("Annot", Object::Dictionary(annot)),
+                        ("Kids", Object::Array(vec![Object::Dictionary(key_dict(3, 1100, false)), Object::Array(vec![Object::Dictionary(key_dict(1, 1200, false))])])),
+                    ])),
+                ));
+                objs.push(((5, 0), Object::Array(vec![Object::Dictionary(key_dict(1, 1300, false)), s(16, 1390, true), Object::Array(vec![s(17, 1391, true)])])));
+                objs.push(((6, 0), Object::Stream(Stream::new(key_dict(2, 1400, true), pattern(40, 1490)))));
+                objs.push(((7, 0), Object::Stream(Stream::new(key_dict(1, 1500, true), pattern(16, 1590)))));
+                // dictionaries that carry the /Type of objects with an exemption, nested in an ordinary object: only
+                // cross-reference STREAMS, the encryption dictionary itself and metadata STREAMS are exempt
+                let typed = |t: &str, salt: u32| {
+                    let mut d = key_dict(3, salt, false);
+                    d.set("Type", Object::Name(t.as_bytes().to_vec()));
+                    Object::Dictionary(d)
+                };
+                let mut like_enc = dict(vec![
+                    ("Filter", Object::Name(b"Standard".to_vec())),
+                    ("V", Object::Integer(4)),
+                    ("R", Object::Integer(4)),
+                    ("Length", Object::Integer(128)),
+                    ("P", Object::Integer(-3904)),
+                    ("O", s(32, 1690, false)),
+                    ("U", s(32, 1691, true)),
+                    ("OE", s(32, 1692, true)),
+                    ("UE", s(32, 1693, false)),
+                    ("Perms", s(16, 1694, true)),
+                ]);
+                like_enc.set("StmF", Object::Name(b"StdCF".to_vec()));
+                objs.push((
+                    (8, 0),
+                    Object::Dictionary(dict(vec![
+                        ("A", typed("XRef", 1600)),
+                        ("B", typed("ObjStm", 1700)),
+                        ("C", Object::Dictionary(like_enc.clone())),
+                        ("D", Object::Array(vec![typed("XRef", 1800), Object::Dictionary(like_enc)])),
+                        ("E", typed("Encrypt", 1900)),
+                    ])),
+                ));
+                // number 9 stays free (a writer other than lopdf may put the encryption dictionary there, in front of
+                // objects that still have to be processed); a top-level object shaped like an encryption dictionary that
+                // is NOT the one the trailer's /Encrypt names, and a last object with strings
+                let mut top_like = dict(vec![("Filter", Object::Name(b"Standard".to_vec())), ("V", Object::Integer(2)), ("R", Object::Integer(3)), ("P", Object::Integer(-4))]);
+                top_like.set("O", s(32, 1950, true));
+                top_like.set("U", s(32, 1951, false));
+                objs.push(((10, 0), Object::Dictionary(top_like)));
+                objs.push(((11, 0), Object::Array(vec![s(24, 1960, false), s(24, 1961, true), Object::Dictionary(key_dict(2, 1970, false))])));
+            }
+            DocKind::SigDict | DocKind::SigAmbiguous => {
+                let sig = |ty: Option<&str>, byte_range: bool, contents: Object, salt: u32| {
+                    let mut d = dict(vec![
+                        ("Filter", Object::Name(b"Adobe.PPKLite".to_vec())),
+                        ("SubFilter", Object::Name(b"adbe.pkcs7.detached".to_vec())),
+                        ("Contents", contents),
+                        ("Reason", s(20, salt + 1, false)),
+                        ("Name", s(17, salt + 2, true)),
+                        ("M", Object::string_literal("D:20261003120000+02'00'")),
+                        ("Cert", Object::Array(vec![s(48, salt + 3, true)])),
+                    ]);
+                    if let Some(t) = ty {
+                        d.set("Type", Object::Name(t.as_bytes().to_vec()));
+                    }
+                    if byte_range {
+                        d.set("ByteRange", Object::Array(vec![0.into(), 840.into(), 960.into(), 240.into()]));
+                    }
+                    Object::Dictionary(d)
+                };
+                objs.push(((1, 0), Object::Dictionary(dict(vec![("Type", Object::Name(b"Catalog".to_vec())), ("S", s(20, 2000, false))]))));
+                if kind == DocKind::SigDict {
+                    // lengths: not a multiple of 16 / a multiple of 16 of at least 32 bytes (what AES data looks like) / short
+                    objs.push(((2, 0), sig(Some("Sig"), true, s(40, 2010, true), 2011)));
+                    objs.push(((3, 0), sig(Some("DocTimeStamp"), true, s(64, 2020, true), 2021)));
+                    // a signature field whose value is a direct signature dictionary; the field's own strings are ordinary
+                    objs.push((
+                        (4, 0),
+                        Object::Dictionary(dict(vec![
+                            ("FT", Object::Name(b"Sig".to_vec())),
+                            ("T", s(18, 2030, false)),
+                            ("V", sig(Some("Sig"), true, s(48, 2031, true), 2032)),
+                            ("Kids", Object::Array(vec![sig(Some("Sig"), true, s(7, 2040, true), 2041)])),
+                        ])),
+                    ));
+                } else {
+                    objs.push(((2, 0), sig(Some("Sig"), true, s(40, 2110, false), 2111)));
+                    objs.push(((3, 0), sig(None, true, s(40, 2120, true), 2121)));
+                    objs.push(((4, 0), sig(Some("Sig"), false, s(40, 2130, true), 2131)));
+                    objs.push(((5, 0), sig(Some("DocTimeStamp"), false, s(64, 2140, false), 2141)));
+                    objs.push(((6, 0), Object::Array(vec![sig(None, true, s(33, 2150, false), 2151)])));
+                }
+            }
             DocKind::MetaDict => {
                 let meta = |salt: u32| {
                     Object::Dictionary(dict(vec![
@@ -2175,6 +2484,9 @@ pub mod menu {
         StrInStreamDict,
         /// string inside a non-stream dictionary whose /Type is /Metadata
         StrInMetadataDict,
+        /// the Contents string of a dictionary that is, or under some reading may be, a signature dictionary
+        /// (`maybe_signature_dictionary`): ISO 32000-2 7.6.2 exempts the signature value from encryption
+        SigContents,
         Body,
     }
 
@@ -2218,6 +2530,15 @@ pub mod menu {
             }
             (Object::Dictionary(a), Object::Dictionary(b)) => {
                 let meta = ctx == 0 && matches!(a.get(b"Type"), Ok(Object::Name(n)) if n == b"Metadata");
+                if super::maybe_signature_dictionary(a) {
+                    if let (Ok(Object::String(x, _)), Ok(Object::String(y, _))) = (a.get(b"Contents"), b.get(b"Contents")) {
+                        let keep = path.len();
+                        path.push_str("/Contents");
+                        f(path, Leaf::SigContents, if cfg.has_filters() { cfg.strf } else { F::Rc4 }, x, y);
+                        path.truncate(keep);
+                        return zip_dict_skip(cfg, a, b, path, if meta { 2 } else { ctx }, f, Some(b"Contents"));
+                    }
+                }
                 zip_dict(cfg, a, b, path, if meta { 2 } else { ctx }, f)
             }
             (Object::Stream(a), Object::Stream(b)) => {
@@ -2240,8 +2561,17 @@ pub mod menu {
     }
 
     fn zip_dict(cfg: &Config, a: &Dictionary, b: &Dictionary, path: &mut String, ctx: u8, f: &mut dyn FnMut(&str, Leaf, F, &[u8], &[u8])) -> bool {
+        zip_dict_skip(cfg, a, b, path, ctx, f, None)
+    }
+
+    fn zip_dict_skip(
+        cfg: &Config, a: &Dictionary, b: &Dictionary, path: &mut String, ctx: u8, f: &mut dyn FnMut(&str, Leaf, F, &[u8], &[u8]), skip: Option<&[u8]>,
+    ) -> bool {
         let keep = path.len();
         for (k, x) in a.iter() {
+            if skip == Some(k.as_slice()) {
+                continue;
+            }
             match b.get(k) {
                 Ok(y) => {
                     path.push('/');
@@ -2258,34 +2588,35 @@ pub mod menu {
         true
     }
 
+    /// The Crypt filter of a stream dictionary: None = the stream has no Crypt filter; Some(None) = it has one whose
+    /// parameters give no (usable) Name; Some(Some(name)) = the crypt filter it names. The parameters are a lone
+    /// dictionary, or the entry at the filter's position in an array.
+    pub fn crypt_override_name(d: &Dictionary) -> Option<Option<Vec<u8>>> {
+        let pos = match d.get(b"Filter") {
+            Ok(Object::Name(n)) if n == b"Crypt" => 0,
+            Ok(Object::Array(a)) => a.iter().position(|x| matches!(x, Object::Name(n) if n == b"Crypt"))?,
+            _ => return None,
+        };
+        let parms = match d.get(b"DecodeParms") {
+            Ok(Object::Dictionary(p)) => Some(p),
+            Ok(Object::Array(a)) => match a.get(pos) {
+                Some(Object::Dictionary(p)) => Some(p),
+                _ => None,
+            },
+            _ => None,
+        };
+        Some(match parms.map(|p| p.get(b"Name")) {
+            Some(Ok(Object::Name(n))) => Some(n.clone()),
+            _ => None,
+        })
+    }
+
     /// Method the configuration assigns to the body of a stream with this (plaintext) dictionary.
     pub fn stream_method(cfg: &Config, d: &Dictionary) -> F {
         if !cfg.has_filters() {
             return F::Rc4;
         }
-        let has_crypt = match d.get(b"Filter") {
-            Ok(Object::Name(n)) => n == b"Crypt",
-            Ok(Object::Array(a)) => a.iter().any(|x| matches!(x, Object::Name(n) if n == b"Crypt")),
-            _ => false,
-        };
-        if has_crypt {
-            // the parameters of the Crypt filter: a lone dictionary, or the entry at the filter's position in an array
-            let pos = match d.get(b"Filter") {
-                Ok(Object::Array(a)) => a.iter().position(|x| matches!(x, Object::Name(n) if n == b"Crypt")).unwrap_or(0),
-                _ => 0,
-            };
-            let parms = match d.get(b"DecodeParms") {
-                Ok(Object::Dictionary(p)) => Some(p),
-                Ok(Object::Array(a)) => match a.get(pos) {
-                    Some(Object::Dictionary(p)) => Some(p),
-                    _ => None,
-                },
-                _ => None,
-            };
-            let name = match parms.map(|p| p.get(b"Name")) {
-                Some(Ok(Object::Name(n))) => Some(n.clone()),
-                _ => None,
-            };
+        if let Some(name) = crypt_override_name(d) {
             return cfg.method_of_name(name.as_deref());
         }
         if !cfg.em && matches!(d.get(b"Type"), Ok(Object::Name(n)) if n == b"Metadata") {
@@ -2309,6 +2640,45 @@ pub mod menu {
             ("cut127_3byte", mk(125, 'c', '\u{20ac}'), mk(126, 'D', '\u{4e2d}')),
             ("cut127_4byte", mk(124, 'e', '\u{20000}'), mk(126, 'F', '\u{10330}')),
         ]
+    }
+
+    /// Password pairs for revisions 5-6 made of (mostly) non-Latin characters whose UTF-8 form is around or beyond
+    /// the 127 bytes Algorithm 2.A keeps. The standard's order is: SASLprep the whole password, convert to UTF-8,
+    /// keep the first 127 BYTES (which may split a character) - on the encrypting and on the opening side alike.
+    pub fn long_nonlatin_pairs() -> Vec<(&'static str, String, String)> {
+        let run = |first: u32, n: usize, span: u32| -> String { (0..n).map(|i| char::from_u32(first + (i as u32 * 7) % span).unwrap()).collect() };
+        let cyr = |n: usize, off: u32| run(0x430 + off, n, 26);
+        let cjk = |n: usize, off: u32| run(0x4e00 + off, n, 400);
+        let ext_b = |n: usize, off: u32| run(0x20000 + off, n, 300);
+        let mut v: Vec<(&'static str, String, String)> = vec![
+            // 2-byte characters only: 128 / 140 bytes, byte 127 is the first byte of a character
+            ("long_cyrillic", cyr(64, 0), cyr(70, 3)),
+            // 3-byte characters only: 129 / 150 bytes, byte 127 falls inside a character
+            ("long_cjk", cjk(43, 0), cjk(50, 9)),
+            // 4-byte characters only: 128 / 160 bytes
+            ("long_4byte", ext_b(32, 0), ext_b(40, 5)),
+            // exactly 126 and exactly 127 bytes (nothing is cut), 63 resp. 63 + one ASCII character
+            ("cyrillic_126_127", cyr(63, 1), format!("{}z", cyr(63, 2))),
+            // the cut at 127 IS a character boundary (1 ASCII + 63 two-byte characters, then more)
+            ("cut_on_boundary", format!("a{}{}", cyr(63, 4), cjk(3, 1)), format!("B{}{}", cjk(42, 2), cyr(5, 5))),
+            // mixed scripts, 2-, 3- and 4-byte characters, a 3-byte resp. 4-byte character across offset 127
+            ("mixed_scripts", format!("{}{}{}x{}", cyr(20, 6), cjk(20, 3), ext_b(6, 1), cjk(4, 7)), format!("pw{}{}{}", cjk(30, 4), cyr(16, 7), ext_b(4, 2))),
+            // only one of the two passwords is long
+            ("long_user_short_owner", cyr(80, 8), "owner".into()),
+            ("short_user_long_owner", "user".into(), cjk(60, 11)),
+            ("empty_user_long_owner", "".into(), cyr(66, 9)),
+        ];
+        // SASLprep changes the length: 40 soft hyphens (mapped to nothing) in front of 100 significant bytes - the raw
+        // form has 180 bytes, the prepared form 100; and U+337F, which NFKC expands from 3 to 12 bytes (33 -> 132 bytes)
+        let shy: String = std::iter::repeat('\u{ad}').take(40).collect();
+        v.push(("prep_shrinks_below_127", format!("{}{}", shy, cyr(50, 10)), format!("{}{}{}", cyr(10, 11), shy, cjk(30, 13))));
+        v.push(("prep_expands_beyond_127", std::iter::repeat('\u{337f}').take(11).collect(), format!("{}q", std::iter::repeat('\u{337f}').take(12).collect::<String>())));
+        for (name, u, o) in &v {
+            for p in [u, o] {
+                assert!(super::utf8_prep_full(p).is_ok(), "SASLprep rejects a password of the pair {}", name);
+            }
+        }
+        v
     }
 
     /// Password pairs (user, owner) of DESIGN C05.
